@@ -46,8 +46,15 @@ def cpu_flags():
         return set()
 
 
-def build_wrapper(nm, instr, off):
-    """-> (source text, entry name) or raises ValueError(reason) if the signature is outside the generator"""
+def dram_operands(instr):
+    return [str(a.name) for a in instr._loopir_proc.args
+            if a.type.is_numeric() and a.type.is_tensor_or_window() and (a.mem is None or a.mem.name() == "DRAM")]
+
+
+def build_wrapper(nm, instr, off, strided=None):
+    """-> (source text, entry name) or raises ValueError(reason) if the signature is outside the generator.
+    strided: name of one DRAM operand that is passed as a NON-unit-stride window (a column of a wider
+    buffer); the instruction's own stride assertions decide whether the front end admits that"""
     ir = instr._loopir_proc
     sig = []
     pre = []
@@ -76,7 +83,16 @@ def build_wrapper(nm, instr, off):
             call.append(an)
             continue
         shp = [str(h) for h in ty.shape()]
-        if mem == "DRAM":
+        if mem == "DRAM" and strided == an:
+            if len(shp) == 1:
+                sig.append(f"{an}: {bt}[{shp[0]} + 1, 3]")
+                call.append(f"{an}[0:{shp[0]}, 1]")
+            elif len(shp) == 2:
+                sig.append(f"{an}: {bt}[{shp[0]} + 1, {shp[1]} + 1, 2]")
+                call.append(f"{an}[1:1 + {shp[0]}, 0:{shp[1]}, 1]")
+            else:
+                raise ValueError("rank")
+        elif mem == "DRAM":
             if len(shp) == 1:
                 sig.append(f"{an}: {bt}[{shp[0]} + 3]")
                 call.append(f"{an}[{off}:{off} + {shp[0]}]")
@@ -103,7 +119,7 @@ def build_wrapper(nm, instr, off):
         if "stride" in s:
             continue
         preds.append(f"assert {s}")
-    name = f"w_{nm}_{off}"
+    name = f"w_{nm}_{off}" + (f"_s{strided}" if strided else "")
     lines = ["@proc", f"def {name}({', '.join(sig)}):"] + ["    " + p for p in preds] + ["    " + p for p in pre]
     lines.append(f"    {nm}({', '.join(call)})")
     lines += ["    " + p for p in post]
@@ -146,25 +162,37 @@ def run_instr(job):
     has_dram = any(a.type.is_numeric() and a.type.is_tensor_or_window() and (a.mem is None or a.mem.name() == "DRAM")
                    for a in instr._loopir_proc.args)
     offsets = (0, 1, 2) if tier != "quick" else ((0, 2) if has_dram else (0,))
-    for off in offsets:
+    variants = [(off, None) for off in offsets] + [(0, an) for an in dram_operands(instr)]
+    for off, strided in variants:
         try:
-            src, entry = build_wrapper(nm, instr, off)
+            src, entry = build_wrapper(nm, instr, off, strided)
         except ValueError as ex:
+            if strided:
+                continue
             out["status"] = f"skip:{ex}"
             return out
         try:
             ns = mkprocs("from exo.platforms.x86 import *\n" + src, tag="c14")
             w = ns[entry]
         except Exception as ex:
+            if strided:
+                # the instruction's assertions exclude this layout: outside the instruction's contract
+                out["strided_refused"] = out.get("strided_refused", 0) + 1
+                continue
             out["status"] = f"skip:wrapper-rejected:{type(ex).__name__}"
             out["detail"] = str(ex)[:300]
             return out
         try:
             c, h = compile_procs_to_strings([w], "prog.h")
         except Exception as ex:
+            if strided:
+                out["strided_refused"] = out.get("strided_refused", 0) + 1
+                continue
             out["status"] = f"skip:compile-refused:{type(ex).__name__}"
             out["detail"] = str(ex)[:300]
             return out
+        if strided:
+            out["strided_admitted"] = out.get("strided_admitted", 0) + 1
         out["wrappers"] += 1
         ir = w._loopir_proc
         vals = list(inputs.control_domain(ir, sizes=tuple(range(1, 17)), idxs=(0, 1), max_vals=20))
@@ -187,14 +215,14 @@ def run_instr(job):
                 out["status"] = "harness-timeout"
                 return out
             if not r["compile_ok"]:
-                out["bad"].append({"kind": "c-compile-failed", "detail": r["compile_err"][-800:], "wrapper": src})
+                out["bad"].append({"kind": "c-compile-failed", "detail": r["compile_err"][-800:], "wrapper": src, "strided": strided or "-"})
                 out["status"] = "ran"
                 return out
             runs = cback.parse_dump(r["stdout"])
             for k, (v, e) in enumerate(zip(keep, exp)):
                 out["vals"] += 1
                 if k >= len(runs) or not runs[k]["complete"]:
-                    out["bad"].append({"kind": "crash", "detail": r["stderr"][-800:], "wrapper": src, "input": str(v[0]), "offset": off})
+                    out["bad"].append({"kind": "crash", "detail": r["stderr"][-800:], "wrapper": src, "input": str(v[0]), "offset": off, "strided": strided or "-"})
                     break
                 got = runs[k]
                 bad = None
@@ -212,7 +240,7 @@ def run_instr(job):
                     if bad:
                         break
                 if bad:
-                    bad.update({"wrapper": src, "input": str(v[0]), "offset": off, "pattern": pattern, "instr": cins})
+                    bad.update({"wrapper": src, "input": str(v[0]), "offset": off, "pattern": pattern, "instr": cins, "strided": strided or "-"})
                     out["bad"].append(bad)
                     break
             if out["bad"]:
@@ -237,8 +265,11 @@ def run(rep):
         nvals += out["vals"]
         if out["status"] == "ran":
             nran += 1
+        for k in ("strided_refused", "strided_admitted"):
+            if out.get(k):
+                rep.count(k, out[k])
         for b in out["bad"]:
-            rep.violation({"oracle": "instr", "kind": b["kind"], "instr": out["name"]}, b)
+            rep.violation({"oracle": "instr", "kind": b["kind"], "instr": out["name"], "strided": b.get("strided", "-")}, b)
     rep.set("evaluations", nvals)
     rep.set("distinct_nontrivial", nran)
     rep.set("instructions_total", len(names))
@@ -246,7 +277,8 @@ def run(rep):
     rep.set("skipped", skipped)
     rep.set("exhaustive", True)
     rep.set("rule", "every @instr of exo.platforms.x86 whose operands the wrapper generator supports x window offset 0..2 x every "
-                    "size/mask argument admitted by the assertions (1..16) x 2 lane-distinct exact data patterns; non-trivial = instruction executed")
+                    "size/mask argument admitted by the assertions (1..16) x 2 lane-distinct exact data patterns; plus, per DRAM operand, a "
+                    "non-unit-stride window (admitted only if the instruction's own assertions allow it); non-trivial = instruction executed")
     try:
         rep.sample({"wrapper": build_wrapper("mm256_fmadd_ps", dict(all_instrs())["mm256_fmadd_ps"], 1)[0]})
     except Exception:
